@@ -872,10 +872,15 @@ func configs(quick bool) []Cfg {
 			Pre:      []PreTunnel{{"A", "min"}}, MaxTunnels: 2, MaxBlocks: 2, Depth: 5},
 	}
 	if quick {
+		q[0].Depth = 6
 		return q
 	}
+	// thorough: two levels deeper with two end-blocks; the two small single-denom configurations run
+	// last and until the frontier is empty (with the number of blocks bounded their reachable state
+	// space is finite), so that the global time cap cannot starve the other configurations
 	t := []Cfg{}
-	for _, c := range q {
+	for _, i := range []int{2, 3} {
+		c := q[i]
 		c.Depth += 2
 		c.MaxBlocks = 2
 		t = append(t, c)
@@ -883,11 +888,17 @@ func configs(quick bool) []Cfg {
 	t = append(t,
 		Cfg{Name: "1denom-3actors", MinDeposit: "4uband", BaseFee: "1uband", Route: "tss", Actors: abc,
 			Balances: map[string]string{"A": "5uband", "B": "4uband", "C": "2uband"},
-			Pre:      []PreTunnel{{"A", "1"}, {"B", "0"}}, MaxTunnels: 3, MaxBlocks: 2, Depth: 6},
+			Pre:      []PreTunnel{{"A", "1"}, {"B", "0"}}, MaxTunnels: 3, MaxBlocks: 2, Depth: 5},
 		Cfg{Name: "2denom-3actors", MinDeposit: "2uband,2uusd", BaseFee: "", Route: "ibc", Actors: abc,
 			Balances: map[string]string{"A": "3uband,2uusd", "B": "2uband,3uusd", "C": "1uband,1uusd"},
-			Pre:      []PreTunnel{{"A", "min"}, {"C", "0"}}, MaxTunnels: 2, MaxBlocks: 2, Depth: 6},
+			Pre:      []PreTunnel{{"A", "min"}, {"C", "0"}}, MaxTunnels: 2, MaxBlocks: 2, Depth: 5},
 	)
+	for _, i := range []int{0, 1} {
+		c := q[i]
+		c.Depth = 14
+		c.MaxBlocks = 2
+		t = append(t, c)
+	}
 	return t
 }
 
@@ -895,7 +906,7 @@ func init() {
 	engine.Register(&engine.Check{
 		ID: "C17",
 		Run: func(r *engine.Run) {
-			r.Bound = "2-3 accounts with wallets of 2-6 units per denom, <=2-3 tunnels (pre-created and/or created during the search), minimum deposit of 1 or 2 denoms; every create/deposit/withdraw amount in {1 per denom, min-1, min, all, all+1}, activate/deactivate/trigger by the creator and by a stranger, one non-existent tunnel id, <=1 (quick) / <=2 (thorough) end-blocks; BFS depth 4-5 (quick) / 6-7 (thorough)"
+			r.Bound = "2-3 accounts with wallets of 1-6 units per denom, <=2-3 tunnels (pre-created and/or created during the search), minimum deposit of 1 or 2 denoms, routes that fail (tss without group, ibc without channel) or deliver (tss with a live 2-of-2 group and funded fee payers); every create/deposit/withdraw amount in {1 per denom, min-1, min, all, all+1} resolved against the wallet / the own deposit, activate/deactivate/trigger by the creator and by a stranger, one non-existent tunnel id, <=1 (quick; 2 in the delivering configuration) / <=2 (thorough) end-blocks; BFS depth 4-6 (quick) / 5-7 and to an empty frontier for the two small single-denom configurations (thorough)"
 			r.Assumptions = []string{
 				"Tx seam = ValidateBasic + message-router handler in a cache context (ante chain not executed here; see C02)",
 				"deposit and create acceptance are taken as given (the statement does not fix them); their effects on the three ledgers and on the wallet are checked",
